@@ -391,10 +391,23 @@ func gen(seed uint64, tier string) {
 		}
 		fmt.Fprintln(out, sb.String())
 	}
+	// concurrent callers (conc.go)
+	ncc := n / 30
+	if ncc > 1500 {
+		ncc = 1500
+	}
+	for i := 0; i < ncc; i++ {
+		kind := kinds[i%3]
+		style := styleCycle[r.Intn(len(styleCycle))]
+		P := placedShape(r, kind, style)
+		l := makeLine(r, P, style, i%2 == 1)
+		f := scaleFor(r)
+		fmt.Fprintf(out, "cc %s | %s\n", vproto.GeomToks(shapes.ScaleGeom(l, f)), vproto.GeomToks(shapes.ScaleGeom(P.ToGeom(2, r.Intn(5) != 0), f)))
+	}
 	// closed cycles of member lines through shared junctions, very many members, empty member polygons
 	cycleCorpus(emit)
 	cycleCases(r, n/20, emit)
-	manyMembers(r, emit)
+	manyMembers(r, tier, emit)
 	emptyMemberCases(r, n/60, emit)
 	affineCases(r, n/25, emit)
 	quadCases(r, n/25, emit)
@@ -700,6 +713,8 @@ func impl() {
 					return
 				}
 				res = "ok " + vproto.GeomToks(r)
+			case "cc":
+				res = concurrentClip(line)
 			case "hclip":
 				// the polygon object of the first call is kept and overwritten in place for the
 				// following calls; all results are serialised only after the last call
